@@ -27,6 +27,12 @@ PROP = dict(
           "are removed through ONE handle (one removeAt(i, n) or single removals, remove(key)) down to 0..5, every handle is "
           "read back completely after every step (length, all elements, sharing, reference count, Var == Var between handles), "
           "a write and a second removal go through another handle, and the handles are dropped in a generated order. "
+          "selfapp = a scenario on a private UNSHARED array of length 1..50 (built by <<, resize+[i] so that capacity == length, or "
+          "[i] auto-resize; ints, inline and heap strings, doubles, nested arrays): up to 52 steps of a << a[k], (a, a[k]), chained "
+          "appends, a << a[last], a << a[j][1], a[i] = a[j] with the argument passed BY REFERENCE, so that the length sweeps "
+          "through every capacity boundary (3, 6, 12, 24, 48, 96 and the exact-size ones); the appended value must equal the "
+          "element's value before the call; full walk after every step. Own elements appended through the ordinary appv op are "
+          "also passed by reference now. "
           "Every string leaf visited by the walker is additionally compared Var == Var (both orders, and !=) with a Var "
           "built at that moment from the model's text. "
           "Oracle: a reference value graph in plain STL (scalars/strings by value, arrays/objects as nodes shared by copies, clone deep). "
@@ -46,8 +52,8 @@ PROP = dict(
                  "Var == float-literal on an INT follows C++'s int == float",
                  "conversions are asserted only where the target type can represent the value (no out-of-range double -> int); "
                  "Long/ULong values are generated within +-2^53 (Var stores them as double); long/unsigned long within int range",
-                 "by-reference arguments that alias storage the same call moves (an own element passed to << while the array has to "
-                 "grow -- C01 #2; extend() with a source inside the receiver) are passed as copies",
+                 "extend() with a source that lives inside the receiver is given a copy of the source (the call would modify the "
+                 "object it enumerates)",
                  "Array<T>::rc()/cap() and Dic::kv() are used to observe sharing and capacity",
                  "AddressSanitizer reports every access to freed heap blocks; __sanitizer_get_current_allocated_bytes() is exact"],
 )
